@@ -14,7 +14,8 @@ META = {
     'technique': 'bounded exhaustive enumeration of output x sink kind x message size/bytes x chain x error-logging x outcome, all sinks observed at recorder entry, reference framing per output',
     'text': 'For every built-in output (file, templated file path, devnull, devtty, socket with path lengths up to the 107-byte limit, devlog with all 20x8 facility/level pairs and 4 idents, '
             'stdout and stderr on pipe / regular file / socket) and message sizes straddling stdio and pipe buffer boundaries, the configured sink must hold exactly the reference record '
-            'at recorder entry, every other sink must be untouched, nothing may be emitted later, and dropped or empty messages leave all sinks untouched. Each case runs twice per process.',
+            'at recorder entry, every other sink must be untouched, nothing may be emitted later, and dropped or empty messages leave all sinks untouched. Each case runs twice per process.'
+            " Further states: the caller's stdio in use (unflushed text in stdout, wide-oriented stderr, sticky error indicators) and socket paths of 108/150 bytes with the sink listening at their 107-byte prefix (nothing may arrive there).",
     'note': 'Datagram sizes stop at 64 KiB (kernel limit is an environment matter); tty sizes stop at 2000 bytes (nobody reads the pty during the call). syslog output is not built by default and not in the statement.',
 }
 
